@@ -2,10 +2,21 @@ package props
 
 import (
 	"context"
+	"encoding/json"
 	"fmt"
+	"io"
+	"net"
+	"net/http"
+	"os"
+	"os/exec"
+	"path/filepath"
 	"sort"
 	"strings"
 	"time"
+
+	envoy "github.com/envoyproxy/go-control-plane/envoy/service/auth/v3"
+	"google.golang.org/grpc"
+	"google.golang.org/grpc/credentials/insecure"
 
 	"github.com/alicebob/miniredis/v2"
 	"github.com/redis/go-redis/v9"
@@ -319,6 +330,7 @@ func c10Run(run *ev.Run) {
 		"one second of granularity: at exactly c+A / u+I either answer is accepted",
 		"whether a read that finds the session but not the requested part, or a clear, counts as 'use' is left open (both candidates are kept)",
 		"background sweeps on a ticker inside the store would be driven by the virtual ticker after every clock advance",
+		"binary level: the executable built from cmd/ is started three times (2 s absolute, 2 s idle, 3600 s) and driven over gRPC with a provider on loopback TCP; same one-sided assertions",
 		"system level: a one-sided real-time replay through the real start-up wiring (loader, store factory PreRun, Check) on the memory store: 2 s limits must be enforced after 4 s, 3600 s limits must keep the session; miniredis has no wall-clock expiry, so Redis is judged at store level only",
 	}
 	vtime.SetVirtual(true)
@@ -361,6 +373,169 @@ func c10Run(run *ev.Run) {
 	run.States, run.Transitions, run.Traces, run.Evals = total.States, total.Transitions, total.Histories, total.Transitions
 	run.Extra["depth"] = depth
 	c10RealTime(run)
+	c10Binary(run)
+}
+
+// c10Binary drives the BUILT BINARY (cmd/main.go wiring, real gRPC server) over loopback: one process with a 2 s
+// absolute timeout, one with 3600 s limits; login through a provider served by this process over loopback TCP;
+// one-sided real-time assertions as in c10RealTime.
+func c10Binary(run *ev.Run) {
+	bin := os.Getenv("VERIF_BINARY")
+	if bin == "" {
+		run.Extra["binary_replay"] = "skipped (VERIF_BINARY not set; use ./check C10)"
+		return
+	}
+	world.InitKeys()
+	type proc struct {
+		name      string
+		abs, idle int
+		wantAlive bool
+		cmd       *exec.Cmd
+		conn      *grpc.ClientConn
+		cl        envoy.AuthorizationClient
+		idp       *world.SimIdP
+		srv       *http.Server
+		sid       string
+	}
+	freePort := func() int {
+		l, err := net.Listen("tcp", "127.0.0.1:0")
+		if err != nil {
+			panic(err)
+		}
+		defer l.Close()
+		return l.Addr().(*net.TCPAddr).Port
+	}
+	procs := []*proc{{name: "absolute=2s", abs: 2, wantAlive: false}, {name: "idle=2s", idle: 2, wantAlive: false}, {name: "3600s", abs: 3600, idle: 3600, wantAlive: true}}
+	scratch := os.Getenv("VERIF_SCRATCH")
+	if scratch == "" {
+		scratch = os.TempDir()
+	}
+	cleanup := func() {
+		for _, p := range procs {
+			if p.conn != nil {
+				p.conn.Close()
+			}
+			if p.cmd != nil && p.cmd.Process != nil {
+				_ = p.cmd.Process.Kill()
+				_, _ = p.cmd.Process.Wait()
+			}
+			if p.srv != nil {
+				_ = p.srv.Close()
+			}
+		}
+	}
+	defer cleanup()
+	check := func(p *proc, path, cookie string) (*envoy.CheckResponse, error) {
+		h := map[string]string{":path": path}
+		if cookie != "" {
+			h["cookie"] = world.CookieName("") + "=" + cookie
+		}
+		ctx, cancel := context.WithTimeout(context.Background(), 10*time.Second)
+		defer cancel()
+		return p.cl.Check(ctx, &envoy.CheckRequest{Attributes: &envoy.AttributeContext{Request: &envoy.AttributeContext_Request{
+			Http: &envoy.AttributeContext_HttpRequest{Id: "r", Method: "GET", Scheme: "https", Host: "app.test", Path: path, Headers: h}}}})
+	}
+	for i, p := range procs {
+		// provider over loopback TCP
+		ln, err := net.Listen("tcp", "127.0.0.1:0")
+		if err != nil {
+			run.HarnessError("C10 binary: " + err.Error())
+			return
+		}
+		base := "http://" + ln.Addr().String()
+		p.idp = world.NewSimIdP(time.Now, "client-bin", func() string { return "secret-bin" }, "https://app.test/callback")
+		p.idp.TokenLife = 3600
+		p.srv = &http.Server{Handler: p.idp}
+		go func(s *http.Server, l net.Listener) { _ = s.Serve(l) }(p.srv, ln)
+		port, hport := freePort(), freePort()
+		o := map[string]any{"authorization_uri": base + "/auth", "token_uri": base + "/token", "callback_uri": "https://app.test/callback",
+			"jwks": world.JWKS(world.KeyEC, world.KeyRSA), "client_id": "client-bin", "client_secret": "secret-bin",
+			"id_token": map[string]any{"header": "authorization", "preamble": "Bearer"}}
+		if p.abs > 0 {
+			o["absolute_session_timeout"] = p.abs
+		}
+		if p.idle > 0 {
+			o["idle_session_timeout"] = p.idle
+		}
+		doc := map[string]any{"listen_address": "127.0.0.1", "listen_port": port, "health_listen_address": "127.0.0.1", "health_listen_port": hport, "log_level": "error",
+			"chains": []any{map[string]any{"name": "c", "filters": []any{map[string]any{"oidc": o}}}}}
+		b, _ := json.Marshal(doc)
+		cf := filepath.Join(scratch, fmt.Sprintf("c10-binary-%d.json", i))
+		_ = os.WriteFile(cf, b, 0o600)
+		p.cmd = exec.Command(bin, "--config-path", cf)
+		p.cmd.Stdout, p.cmd.Stderr = io.Discard, io.Discard
+		if err := p.cmd.Start(); err != nil {
+			run.HarnessError("C10 binary: cannot start: " + err.Error())
+			return
+		}
+		addr := fmt.Sprintf("127.0.0.1:%d", port)
+		ok := false
+		for k := 0; k < 200; k++ {
+			if c, err := net.DialTimeout("tcp", addr, 100*time.Millisecond); err == nil {
+				c.Close()
+				ok = true
+				break
+			}
+			time.Sleep(50 * time.Millisecond)
+		}
+		if !ok {
+			run.HarnessError("C10 binary: the service did not start listening on " + addr)
+			return
+		}
+		conn, err := grpc.NewClient(addr, grpc.WithTransportCredentials(insecure.NewCredentials()))
+		if err != nil {
+			run.HarnessError("C10 binary: " + err.Error())
+			return
+		}
+		p.conn, p.cl = conn, envoy.NewAuthorizationClient(conn)
+		// login
+		r1, err := check(p, "/app", "")
+		if err != nil {
+			run.HarnessError("C10 binary: first check: " + err.Error())
+			return
+		}
+		res1 := world.ParseResponse(r1)
+		name := world.CookieName("") + "="
+		for _, sc := range res1.SetCookies {
+			if strings.HasPrefix(sc, name) {
+				p.sid = strings.SplitN(strings.TrimPrefix(sc, name), ";", 2)[0]
+			}
+		}
+		cb, _, aerr := p.idp.Authorize(res1.Location)
+		if p.sid == "" || aerr != nil {
+			run.HarnessError(fmt.Sprintf("C10 binary: login step 1 failed (code %v, %v)", res1.Code, aerr))
+			return
+		}
+		r2, err := check(p, strings.TrimPrefix(cb, "https://app.test"), p.sid)
+		if err != nil || world.ParseResponse(r2).HTTPStatus != 302 {
+			run.HarnessError(fmt.Sprintf("C10 binary: callback failed (%v)", err))
+			return
+		}
+		if p.wantAlive {
+			if r, err := check(p, "/app", p.sid); err != nil || !world.ParseResponse(r).OK {
+				run.Violation("C10 binary-drops-fresh-session", "the built service does not honour a fresh session with 3600 s limits", map[string]any{"config": p.name})
+			}
+		}
+	}
+	time.Sleep(4 * time.Second)
+	for _, p := range procs {
+		r, err := check(p, "/app", p.sid)
+		if err != nil {
+			run.HarnessError("C10 binary: final check: " + err.Error())
+			continue
+		}
+		ok := world.ParseResponse(r).OK
+		run.Class(fmt.Sprintf("binary|%s|ok-after-4s=%v", p.name, ok))
+		run.Transitions += 4
+		run.Traces++
+		if !p.wantAlive && ok {
+			run.Violation("C10 binary-honours-past-limit config="+p.name, "the built binary (cmd/ wiring, memory store, "+p.name+") still answers OK 4 s after login", map[string]any{"config": p.name})
+		}
+		if p.wantAlive && !ok {
+			run.Violation("C10 binary-drops-session-inside-limits", "3600 s limits but the built binary dropped the session after 4 s", map[string]any{"config": p.name})
+		}
+	}
+	run.Extra["binary_replay"] = "ran (3 processes)"
 }
 
 // c10RealTime: the service as actually assembled at start-up (real loader, real store factory PreRun, real
